@@ -139,6 +139,12 @@ func RunPair(t *testing.T, spec RunSpec, v PairVariant, stats *Stats) *RunResult
 			if ga.Group == variedName {
 				continue
 			}
+			if ga.Reached && gb.Reached && !ga.TEnter.Equal(gb.TEnter) {
+				// the varied group took a different amount of (virtual) time, e.g. a pause before a retry: from
+				// here on the two members see the world at different instants and are no longer comparable
+				stats.Probe("pair: members drifted apart in time")
+				return res
+			}
 			stats.Check(rule, uint64(len(ga.Calls))<<8|uint64(gi))
 			xa, xb := groupSig(ga), groupSig(gb)
 			if strings.Join(xa, "\n") != strings.Join(xb, "\n") {
